@@ -92,39 +92,45 @@ type ExcludedForm struct {
 	Name   string // short identifier for keys/evidence
 	Decl   string // field declaration; %d is replaced by a unique number
 	Import string
+	// Extra: a type declaration the form needs (name and fields; %d as in Decl)
+	ExtraName   string
+	ExtraFields []string
 }
 
 // ExcludedForms is the rotating list of excluded-field forms.
 var ExcludedForms = []ExcludedForm{
-	{"lower", "x%d int32", ""},
-	{"lower_string", "secret%d string", ""},
-	{"blank", "_ int32", ""},
-	{"underscore", "_x%d string", ""},
-	{"nonascii_lower", "éx%d float64", ""},
-	{"lower_map", "m%d map[string]int", ""},
-	{"lower_ptr_struct", "p%d *struct{ A int }", ""},
-	{"dash", "Dash%d string `parquet:\"-\"`", ""},
-	{"dash_map", "DashM%d map[string]int `parquet:\"-\"`", ""},
-	{"dash_chan", "DashC%d chan int `parquet:\"-\"`", ""},
-	{"dash_func", "DashF%d func() `parquet:\"-\"`", ""},
-	{"dash_time", "DashT%d time.Time `parquet:\"-\"`", "time"},
-	{"dash_json_before", "DashJ%d int64 `json:\"j\" parquet:\"-\"`", ""},
-	{"dash_json_after", "DashK%d *int32 `parquet:\"-\" json:\"k\"`", ""},
-	{"dash_slice", "DashS%d []string `parquet:\"-\"`", ""},
-	{"dash_iface", "DashI%d interface{} `parquet:\"-\"`", ""},
-	{"dash_escaped_quote", "DashE%d string `example:\"\\\"n/a\\\"\" parquet:\"-\"`", ""},
-	{"dash_many_keys", "DashN%d int32 `a:\"1\" b:\"x y\" parquet:\"-\" c:\"z:w\"`", ""},
-	{"lower_anon_struct", "q%d struct{ A int32 }", ""},
-	{"dash_anon_struct", "DashA%d struct{ Q string } `parquet:\"-\"`", ""},
-	{"dash_func_named_params", "DashG%d func(X int32, Y string) bool `parquet:\"-\"`", ""},
-	{"multi_name_unexported", "ma%d, mb%d int32", ""},
+	{Name: "lower", Decl: "x%d int32", Import: ""},
+	{Name: "lower_string", Decl: "secret%d string", Import: ""},
+	{Name: "blank", Decl: "_ int32", Import: ""},
+	{Name: "underscore", Decl: "_x%d string", Import: ""},
+	{Name: "nonascii_lower", Decl: "éx%d float64", Import: ""},
+	{Name: "lower_map", Decl: "m%d map[string]int", Import: ""},
+	{Name: "lower_ptr_struct", Decl: "p%d *struct{ A int }", Import: ""},
+	{Name: "dash", Decl: "Dash%d string `parquet:\"-\"`", Import: ""},
+	{Name: "dash_map", Decl: "DashM%d map[string]int `parquet:\"-\"`", Import: ""},
+	{Name: "dash_chan", Decl: "DashC%d chan int `parquet:\"-\"`", Import: ""},
+	{Name: "dash_func", Decl: "DashF%d func() `parquet:\"-\"`", Import: ""},
+	{Name: "dash_time", Decl: "DashT%d time.Time `parquet:\"-\"`", Import: "time"},
+	{Name: "dash_json_before", Decl: "DashJ%d int64 `json:\"j\" parquet:\"-\"`", Import: ""},
+	{Name: "dash_json_after", Decl: "DashK%d *int32 `parquet:\"-\" json:\"k\"`", Import: ""},
+	{Name: "dash_slice", Decl: "DashS%d []string `parquet:\"-\"`", Import: ""},
+	{Name: "dash_iface", Decl: "DashI%d interface{} `parquet:\"-\"`", Import: ""},
+	{Name: "dash_escaped_quote", Decl: "DashE%d string `example:\"\\\"n/a\\\"\" parquet:\"-\"`", Import: ""},
+	{Name: "dash_many_keys", Decl: "DashN%d int32 `a:\"1\" b:\"x y\" parquet:\"-\" c:\"z:w\"`", Import: ""},
+	{Name: "lower_anon_struct", Decl: "q%d struct{ A int32 }", Import: ""},
+	{Name: "dash_anon_struct", Decl: "DashA%d struct{ Q string } `parquet:\"-\"`", Import: ""},
+	{Name: "dash_func_named_params", Decl: "DashG%d func(X int32, Y string) bool `parquet:\"-\"`", Import: ""},
+	{Name: "multi_name_unexported", Decl: "ma%d, mb%d int32", Import: ""},
 	// the excluded field's own type declares TAGGED fields
-	{"dash_anon_struct_tagged", "DashB%d struct {\n\t\tA int32 `parquet:\"a\"`\n\t} `parquet:\"-\"`", ""},
-	{"dash_ptr_anon_struct_tagged", "DashP%d *struct {\n\t\tZ string `parquet:\"zz\" json:\"z\"`\n\t} `parquet:\"-\"`", ""},
-	{"lower_slice_anon_struct_tagged", "r%d []struct {\n\t\tK float64 `parquet:\"k\"`\n\t}", ""},
+	{Name: "dash_anon_struct_tagged", Decl: "DashB%d struct {\n\t\tA int32 `parquet:\"a\"`\n\t} `parquet:\"-\"`", Import: ""},
+	{Name: "dash_ptr_anon_struct_tagged", Decl: "DashP%d *struct {\n\t\tZ string `parquet:\"zz\" json:\"z\"`\n\t} `parquet:\"-\"`", Import: ""},
+	{Name: "lower_slice_anon_struct_tagged", Decl: "r%d []struct {\n\t\tK float64 `parquet:\"k\"`\n\t}", Import: ""},
+	// an EMBEDDED struct that is itself tagged parquet:"-"
+	{Name: "dash_embedded_struct", Decl: "XEmb%d `parquet:\"-\"`", ExtraName: "XEmb%d", ExtraFields: []string{"Rev int32", "Note string"}},
+	{Name: "dash_embedded_struct_json", Decl: "XEmj%d `json:\"-\" parquet:\"-\"`", ExtraName: "XEmj%d", ExtraFields: []string{"Amount float64"}},
 	// "share": the excluded name is ADDED TO THE DECLARATION of the exported field that follows
 	// (F1 int32 becomes F1, hid1 int32); at the end of a struct it degrades to an inserted field
-	{"multi_name_share", "hid%d", ""},
+	{Name: "multi_name_share", Decl: "hid%d", Import: ""},
 }
 
 // Variant is a decorated copy of a base shape.
@@ -170,6 +176,7 @@ func ExcludedVariants(forest []*Node, o EmitOpts, rot int) []Variant {
 			if form.Import != "" {
 				imps = []string{form.Import}
 			}
+			d = withExtra(d, form, 1)
 			out = append(out, Variant{Kind: "excluded", Desc: fmt.Sprintf("%s[%d]+%s", base[di].Name, pos, form.Name), Depth: depthOf(base[di].Context),
 				Forms: []string{form.Name}, Ctx: base[di].Context, Code: Render(d, imps)})
 		}
@@ -179,6 +186,7 @@ func ExcludedVariants(forest []*Node, o EmitOpts, rot int) []Variant {
 	n := 0
 	imps := map[string]bool{}
 	var forms []string
+	var extras []StructDecl
 	for di := range d {
 		var nf []string
 		for pos := 0; pos <= len(base[di].Fields); pos++ {
@@ -200,6 +208,9 @@ func ExcludedVariants(forest []*Node, o EmitOpts, rot int) []Variant {
 			if form.Import != "" {
 				imps[form.Import] = true
 			}
+			if form.ExtraName != "" {
+				extras = append(extras, StructDecl{Name: fmt.Sprintf(form.ExtraName, n), Fields: form.ExtraFields})
+			}
 			forms = append(forms, form.Name)
 			nf = append(nf, line)
 			if pos < len(base[di].Fields) {
@@ -212,6 +223,7 @@ func ExcludedVariants(forest []*Node, o EmitOpts, rot int) []Variant {
 	for i := range imps {
 		il = append(il, i)
 	}
+	d = append(d, extras...)
 	out = append(out, Variant{Kind: "excluded", Desc: "all-positions", Depth: len(base), Forms: forms, Ctx: "all", Code: Render(d, il)})
 	return out
 }
@@ -244,12 +256,21 @@ func ExcludedAllForms(forest []*Node, o EmitOpts) []Variant {
 				if form.Import != "" {
 					imps = []string{form.Import}
 				}
+				d = withExtra(d, form, 1)
 				out = append(out, Variant{Kind: "excluded", Desc: fmt.Sprintf("%s[%d]+%s", base[di].Name, pos, form.Name), Depth: depthOf(base[di].Context),
 					Forms: []string{form.Name}, Ctx: base[di].Context, Code: Render(d, imps)})
 			}
 		}
 	}
 	return out
+}
+
+// withExtra appends the type declaration a form needs.
+func withExtra(d []StructDecl, form ExcludedForm, n int) []StructDecl {
+	if form.ExtraName == "" {
+		return d
+	}
+	return append(d, StructDecl{Name: fmt.Sprintf(form.ExtraName, n), Fields: form.ExtraFields})
 }
 
 func containsLine(ls []string, l string) bool {
